@@ -451,7 +451,8 @@ func runC04(cfg config) {
 		}
 		sink.add(fmt.Sprintf("CRun %s, ORun %s true true true", coqN(uint64(100000+pi)), coqBool(same)), "under five process time zones: "+p, "run-tz", fmt.Sprintf("run-tz:%d", pi))
 	}
-	sink.finish("random histories of Compile / patch.Compile calls with AddFunction (fresh, duplicate, built-in names, bad signatures), WithExperimentalFuncs, Permissive: visibility of eight probe names after each; "+
+	c04OrderStage(cfg, sink)
+	sink.finish("every (resource type, navigation program) pair evaluated in two fresh processes in opposite orders (order independence); random histories of Compile / patch.Compile calls with AddFunction (fresh, duplicate, built-in names, bad signatures), WithExperimentalFuncs, Permissive: visibility of eight probe names after each; "+
 		"OverrideTime at random instants in five zones x five process time zones: now / today / timeOfDay; date, time, dateTime and instant elements of resources read under the five process time zones; every sixth generated program plus regex / join / distinct programs evaluated repeatedly, with recompilation, and from 16 goroutines "+
 		"on shared expressions and resources in a child process (race detector built in when the check driver asks for it)", false)
 }
